@@ -95,6 +95,11 @@ structure Cfg where
   `ready`); `true` = the repair under evaluation: store ReplicatorFailureState so that the next IsReady
   runs the handshake. Selected by the regenerated fact `Generated.C08.mismatchSetsFailure`. -/
   mfail : Bool
+  /-- shape of the wake-up in `handleNodeStateChangeEvent`: `true` = the plain blocking channel send
+  `r.suspend <- struct{}{}` (the tree as it is): the handler waits for the loop's receive; `false` = a
+  non-blocking send (select/default): it succeeds only if the loop is already blocked in the receive.
+  Selected by the regenerated fact `Generated.C08.wakeSendBlocking`. -/
+  wake : Bool
   deriving Repr, DecidableEq
 
 /-- image of the leader partition directory (queue + both followers' groups) -/
@@ -117,7 +122,8 @@ structure St where
   chan : Chan        -- remoteReplicator.state
   stream : Stream    -- remoteReplicator.replicaStream
   live : Bool        -- stateMgr.GetLiveNode(follower)
-  susp : Bool        -- remoteReplicator.isSuspend (the replica loop is parked on `<-r.suspend`)
+  susp : Bool        -- remoteReplicator.isSuspend
+  parked : Bool      -- the replica loop is blocked in `<-r.suspend` (or about to: between the CAS and the receive)
   dz : Bool          -- ghost: the OTHER follower's handshake moved this group (ResetAppendIndex) while this channel was ready
   stopped : Bool     -- the group is not registered on the leader (never created, or stopped by IsExpire): no replicator
   born : Bool        -- the group's directory exists on the leader
@@ -129,6 +135,7 @@ structure St where
   stream2 : Stream
   live2 : Bool
   susp2 : Bool
+  parked2 : Bool
   dz2 : Bool
   stopped2 : Bool
   born2 : Bool
@@ -140,9 +147,9 @@ structure St where
 group exists, follower B has not been added yet -/
 def St.init : St :=
   { L := Log.empty,
-    cons := -1, gack := -1, F := Log.empty, chan := .init, stream := .none, live := true, susp := false,
+    cons := -1, gack := -1, F := Log.empty, chan := .init, stream := .none, live := true, susp := false, parked := false,
     dz := false, stopped := false, born := true,
-    cons2 := -1, gack2 := -1, F2 := Log.empty, chan2 := .init, stream2 := .none, live2 := true, susp2 := false,
+    cons2 := -1, gack2 := -1, F2 := Log.empty, chan2 := .init, stream2 := .none, live2 := true, susp2 := false, parked2 := false,
     dz2 := false, stopped2 := true, born2 := false,
     imgs := [], gone := false }
 
@@ -153,9 +160,9 @@ def Img.swap (i : Img) : Img :=
 def St.swap (s : St) : St :=
   { L := s.L,
     cons := s.cons2, gack := s.gack2, F := s.F2, chan := s.chan2, stream := s.stream2, live := s.live2,
-    susp := s.susp2, dz := s.dz2, stopped := s.stopped2, born := s.born2,
+    susp := s.susp2, parked := s.parked2, dz := s.dz2, stopped := s.stopped2, born := s.born2,
     cons2 := s.cons, gack2 := s.gack, F2 := s.F, chan2 := s.chan, stream2 := s.stream, live2 := s.live,
-    susp2 := s.susp, dz2 := s.dz, stopped2 := s.stopped, born2 := s.born,
+    susp2 := s.susp, parked2 := s.parked, dz2 := s.dz, stopped2 := s.stopped, born2 := s.born,
     imgs := s.imgs.map Img.swap, gone := s.gone }
 
 /-! ### follower side (app/storage/rpc/replica.go + partition.go) -/
@@ -236,10 +243,12 @@ def handshake (cfg : Cfg) (s : St) (f : Fault) : St × Bool :=
         else ({ s with chan := .failure }, false)
 
 /-- `remoteReplicator.IsReady`. Second component: returned true. When the follower is not
-live the real call parks on `<-r.suspend`; the model records `susp` and returns false. -/
+live the real call marks itself suspended (`isSuspend.CompareAndSwap(false, true)`) and then blocks on
+`<-r.suspend`; the model records `susp` and `parked` and returns false (the two steps are one here; an
+online notification that lands BETWEEN them is the event `steponl`). -/
 def isReady (cfg : Cfg) (s : St) (f : Fault) : St × Bool :=
   if s.chan = .ready then (s, true)
-  else if s.live = false then ({ s with chan := .failure, susp := true }, false)
+  else if s.live = false then ({ s with chan := .failure, susp := true, parked := true }, false)
   else handshake cfg s f
 
 /-- `remoteReplicator.Connect` -/
@@ -289,7 +298,7 @@ def replicaStep (cfg : Cfg) (s : St) (f : Fault) : St × Out :=
   if ok then
     let (s, ok) := connect s f
     if ok then sendPhase cfg s f else (s, .notready)
-  else (s, if s.susp then .parked else .notready)
+  else (s, if s.parked then .parked else .notready)
 
 /-- `NewConsumerGroup` on an existing group directory: the ack is lifted to the queue's ack and the
 consumed sequence to the (lifted) ack -/
@@ -304,8 +313,8 @@ def reopenLeader (s : St) (im : Img) : St :=
            gack := if im.born then liftAck im.gack im.L.ack else -1,
            cons2 := if im.born2 then liftCons im.cons2 (liftAck im.gack2 im.L.ack) else -1,
            gack2 := if im.born2 then liftAck im.gack2 im.L.ack else -1,
-           chan := .init, stream := .none, susp := false, dz := false, stopped := !im.born, born := im.born,
-           chan2 := .init, stream2 := .none, susp2 := false, dz2 := false, stopped2 := !im.born2, born2 := im.born2 }
+           chan := .init, stream := .none, susp := false, parked := false, dz := false, stopped := !im.born, born := im.born,
+           chan2 := .init, stream2 := .none, susp2 := false, parked2 := false, dz2 := false, stopped2 := !im.born2, born2 := im.born2 }
 
 def St.image (s : St) : Img :=
   { L := s.L, cons := s.cons, gack := s.gack, born := s.born, cons2 := s.cons2, gack2 := s.gack2, born2 := s.born2 }
@@ -350,6 +359,8 @@ inductive Ev
   | lrestart                  -- leader restarts on its current directory
   | offline (w : Who)         -- follower disappears from the live nodes
   | online (w : Who) (f : Fault) -- follower (re)appears; a parked loop resumes its replica call
+  | steponl (w : Who) (f : Fault) -- a replica call that finds the follower offline and marks itself suspended, and the
+                                  -- online notification arrives BEFORE the loop blocks on the receive
   | join (w : Who)            -- BuildReplicaForLeader(leader, [w]): add follower w to the partition (or re-add it after IsExpire stopped it)
   | gc                        -- log.Sync(); log.Queue().GC() (IsExpire on a family inside its write window)
   | expire                    -- IsExpire on a family past its write window
@@ -360,11 +371,19 @@ def brokenStream (st : Stream) : Stream :=
   | .none => .none
   | _ => .broken
 
+/-- `handleNodeStateChangeEvent(NodeOnline)` with the loop either running or already blocked in the
+receive: `isSuspend.CompareAndSwap(true, false)` and the wake-up (either shape of the send finds its
+receiver); the released loop re-runs IsReady and goes on with its replica call -/
+def onlineEv (cfg : Cfg) (s : St) (f : Fault) : St × Out :=
+  let s := { s with live := true }
+  if s.stopped then (s, .noreplicator)
+  else if s.susp then replicaStep cfg { s with susp := false, parked := false } f else (s, .idle)
+
 /-- events of follower A -/
 def peerEv (cfg : Cfg) (s : St) : Ev → St × Out
   | .step _ f =>
     if s.stopped then (s, .noreplicator)
-    else if s.susp then (s, .suspended) else replicaStep cfg s f
+    else if s.parked then (s, .suspended) else replicaStep cfg s f
   | .frestart _ => ({ s with stream := brokenStream s.stream }, .idle)
   | .flose _ => ({ s with F := Log.empty, stream := brokenStream s.stream }, .idle)
   | .offline _ => ({ s with live := false }, .idle)
@@ -375,14 +394,24 @@ def peerEv (cfg : Cfg) (s : St) : Ev → St × Out
     if s.stopped = false then (s, .idle)
     else if s.born then
       ({ s with cons := liftCons s.cons (liftAck s.gack s.L.ack), gack := liftAck s.gack s.L.ack,
-                stopped := false, chan := .init, stream := .none, susp := false, dz := false }, .idle)
+                stopped := false, chan := .init, stream := .none, susp := false, parked := false, dz := false }, .idle)
     else
       ({ s with cons := s.L.ack, gack := s.L.ack, born := true,
-                stopped := false, chan := .init, stream := .none, susp := false, dz := false }, .idle)
-  | .online _ f =>
-    let s := { s with live := true }
-    if s.stopped then (s, .noreplicator)
-    else if s.susp then replicaStep cfg { s with susp := false } f else (s, .idle)
+                stopped := false, chan := .init, stream := .none, susp := false, parked := false, dz := false }, .idle)
+  | .online _ f => onlineEv cfg s f
+  | .steponl _ f =>
+    if s.stopped = false ∧ s.parked = false ∧ s.chan ≠ .ready ∧ s.live = false then
+      -- IsReady: GetLiveNode fails, isSuspend.CompareAndSwap(false, true), state := failure ... (window) ...
+      let s := { s with chan := .failure, susp := true }
+      -- ... the follower comes online: handleNodeStateChangeEvent's CAS(true, false) succeeds, then the send
+      let s := { s with live := true, susp := false }
+      if cfg.wake then
+        -- blocking send: the handler waits; the loop's `<-r.suspend` takes the token and IsReady runs again
+        replicaStep cfg s f
+      else
+        -- non-blocking send: nobody is receiving yet, the token is dropped; the loop then blocks for good
+        ({ s with parked := true }, .parked)
+    else onlineEv cfg s f
   | _ => (s, .idle)
 
 def Ev.who : Ev → Option Who
@@ -391,6 +420,7 @@ def Ev.who : Ev → Option Who
   | .flose w => some w
   | .offline w => some w
   | .online w _ => some w
+  | .steponl w _ => some w
   | .join w => some w
   | _ => none
 
